@@ -1,6 +1,7 @@
 import O4.Lemmas.ReplayFilter
 import O4.Generated.Consts.Replayfilter
 import O4.Generated.Facts.Replayfilter
+import O4.Generated.Facts.Obfs4
 /-!
 # C11 — the replay filter behaves as a bounded, expiring set for every history
 
@@ -264,6 +265,28 @@ theorem tas_runs_under_mutex :
     Facts.Replayfilter.ReplayFilter_TestAndSet_prelock ⊆ ["key"] ∧
     Facts.Replayfilter.ReplayFilter_compactFilter_fields ⊆ Facts.Replayfilter.ReplayFilter_TestAndSet_fields ∧
     Facts.Replayfilter.ReplayFilter_reset_fields ⊆ Facts.Replayfilter.ReplayFilter_TestAndSet_fields := by
+  decide
+
+/-- **structural facts, regenerated from the Go source on every run (go/ast)**: callers that
+    submit "at the current time" go through `TestAndSetNow`, which takes the same mutex bracket
+    as `TestAndSet`, touches only the immutable SipHash key and calls only `siphash.Hash` before
+    the lock, reads the clock (`time.Now`) **after** the lock is taken and then runs the very same
+    `testAndSet` — so the times the filter sees are in lock order and the linearization of
+    simultaneous wall-clock submissions is the sequential behaviour of `tas_atomic` on a monotone
+    clock (no spurious "clock went backwards" reset between two racing callers).  The filter's
+    only production caller, the obfs4 server's `parseClientHandshake`, submits through
+    `TestAndSetNow` and never through `TestAndSet` with a clock reading of its own. -/
+theorem wall_clock_submissions_in_lock_order :
+    Facts.Replayfilter.ReplayFilter_TestAndSetNow_locked = true ∧
+    Facts.Replayfilter.ReplayFilter_TestAndSetNow_prelock ⊆ ["key"] ∧
+    Facts.Replayfilter.ReplayFilter_TestAndSetNow_prelock_calls ⊆ ["siphash.Hash"] ∧
+    "time.Now" ∈ Facts.Replayfilter.ReplayFilter_TestAndSetNow_calls ∧
+    "f.testAndSet" ∈ Facts.Replayfilter.ReplayFilter_TestAndSetNow_calls ∧
+    "f.testAndSet" ∈ Facts.Replayfilter.ReplayFilter_TestAndSet_calls ∧
+    "time.Now" ∉ Facts.Replayfilter.ReplayFilter_testAndSet_calls ∧
+    "time.Now" ∉ Facts.Replayfilter.ReplayFilter_compactFilter_calls ∧
+    "filter.TestAndSetNow" ∈ Facts.Obfs4.serverHandshake_parseClientHandshake_calls ∧
+    "filter.TestAndSet" ∉ Facts.Obfs4.serverHandshake_parseClientHandshake_calls := by
   decide
 
 /-! Non-vacuity: concrete states meeting the hypotheses. -/
